@@ -35,6 +35,24 @@ func c17(c *core.Ctx) {
 
 	c.Rule("C17.key", "every index expression on SecureChannel.instances (lookup, insertion, deletion) uses a key loaded from a channel-id field (ChannelSecurityToken.ChannelID, channelInstance.secureChannelID, Header.SecureChannelID); a site keyed by any other field contradicts the insertion sites and can never find/remove the entry", 7)
 	c.Rule("C17.sched", "every function that appends an instance to SecureChannel.instances either starts `go scheduleExpiration(x)` with the installed instance on every path from the insertion to its return (exhaustive enum switches have no default path), or installs the re-used openingInstance object whose keys (algo) it has just overwritten in place, which destroys the superseded keys immediately", 2)
+	c.Rule("C17.delay", "scheduleExpiration arms its timer from the expiring instance's own createdAt and revisedLifetime × K (K >= 1.25 is C16.fraction): a delay computed from any other quantity (the requested lifetime in the configuration, another instance) keeps superseded keys acceptable beyond lifetime + 25%", 2)
+	if lifetimeF := field(c, "uasc", "channelInstance", "revisedLifetime"); lifetimeF != nil {
+		sites := floatScaleSites(schedExp)
+		if len(sites) == 0 {
+			c.Ob("C17.delay", fname(schedExp)+"·scaled quantity", c.P.Pos(schedExp.Pos()), false, "no lifetime × K scaling found")
+		}
+		for _, s := range sites {
+			okL, why := scaledFromInstanceLifetime(schedExp, s, lifetimeF)
+			c.Ob("C17.delay", fname(schedExp)+"·scaled quantity", pos(c, s.in), okL, why)
+			armed := false
+			for _, a := range timerArgs(schedExp) {
+				if inBackSlice(a, s.in) {
+					armed = true
+				}
+			}
+			c.Ob("C17.delay", fname(schedExp)+"·timer armed with the scaled lifetime", pos(c, s.in), armed, "a time.NewTimer/After duration in the function is computed from lifetime×K: "+boolStr(armed))
+		}
+	}
 	c.Rule("C17.remove", "scheduleExpiration, after its timer fired, rewrites SecureChannel.instances under instancesMu and retains exactly the entries whose securityTokenID differs from the expiring instance's (the append-back is dominated by a `!=` comparison of the two securityTokenIDs)", 1)
 
 	cg := c.P.CallGraph()
